@@ -12,10 +12,9 @@ Go                                   model
 caller's `data []byte`               its length `len`; the model reports what `copy` wrote at
                                      its start (`ReadRes.written`) and the returned `n`, `err`
 
-`Read` is mirrored with its defect (DESIGN F18): the branch that serves `recvBuffer`
-assigns `copy`'s result to a fresh variable `n_` and returns the NAMED result `n`, still 0.
-`readFixed` is the same function with `n = n_` (the proposed repair), used only to state
-what the repaired code would satisfy.
+`Read` mirrors the code after the repair of F18 (commit a002565b: the branch that serves
+`recvBuffer` assigns `copy`'s result to the named result `n`; before, it went to a fresh
+variable `n_` and the call returned `n` = 0). The statement is tied: `Ties.C32.read_copies_tied`.
 -/
 namespace BytomModel.SecretConn
 
@@ -34,9 +33,8 @@ def totalFrameSizeExpr : String := "dataMaxSize + dataLenSize"
 def sealedFrameSizeExpr : String := "totalFrameSize + secretbox.Overhead"
 /-- `Read`'s named results -/
 def readNamedResults : List String := ["n", "err"]
-/-- where `copy`'s count goes in the two branches of `Read`: a NEW variable `n_` in the
-    buffered branch (so the named result `n` stays 0), the named result in the frame branch -/
-def readCopies : List String := ["n_ := copy(data, sc.recvBuffer)", "n = copy(data, chunk)"]
+/-- where `copy`'s count goes in the two branches of `Read`: the named result `n`, in both -/
+def readCopies : List String := ["n = copy(data, sc.recvBuffer)", "n = copy(data, chunk)"]
 /-- all returns of `Read` in source order; the first is the buffered branch's bare return -/
 def readReturns : List String :=
   ["return", "return", "return n, errors.New(\"Failed to decrypt SecretConnection\")",
@@ -143,7 +141,7 @@ structure ReadRes where
 deriving DecidableEq, Repr
 
 /-- the part of `Read` after the buffered branch: fetch, open and unpack one frame.
-    `keepCount` is irrelevant here (both versions return `copy`'s result in this branch). -/
+ -/
 def readFrame (a : Aead) (key : Bytes) (r : Receiver) (len : Nat) : Receiver × ReadRes :=
   if r.wire.length < sealedFrameSize then
     if r.eof then
@@ -167,15 +165,9 @@ def readFrame (a : Aead) (key : Bytes) (r : Receiver) (len : Nat) : Receiver × 
           ({ r2 with buf := chunk.drop w.length }, { n := w.length, err := .none, written := w })
       | _ => (r2, { n := 0, err := .panic, written := [] })
 
-/-- `SecretConnection.Read` as it is: the buffered branch returns the named result `n` = 0 -/
+/-- `SecretConnection.Read`: serve `recvBuffer` first (returning how much was copied),
+    otherwise fetch one frame -/
 def read (a : Aead) (key : Bytes) (r : Receiver) (len : Nat) : Receiver × ReadRes :=
-  if r.buf ≠ [] then
-    let w := r.buf.take len
-    ({ r with buf := r.buf.drop w.length }, { n := 0, err := .none, written := w })
-  else readFrame a key r len
-
-/-- `Read` with the one-word repair `n = copy(…)` in the buffered branch -/
-def readFixed (a : Aead) (key : Bytes) (r : Receiver) (len : Nat) : Receiver × ReadRes :=
   if r.buf ≠ [] then
     let w := r.buf.take len
     ({ r with buf := r.buf.drop w.length }, { n := w.length, err := .none, written := w })
